@@ -127,7 +127,8 @@ def check_file(path, max_witnesses=5):
                     alpha = URL if u == '1' else STD
                     body = s.rstrip('=')
                     npad = len(s) - len(body)
-                    must_err = any(c not in alpha for c in body) or len(body) % 4 == 1
+                    # more '=' than completes the last quantum is not base64 under any reading
+                    must_err = any(c not in alpha for c in body) or len(body) % 4 == 1 or npad > (-len(body) % 4)
                     payload = None
                     strict_ok = False
                     if not must_err:
@@ -147,7 +148,7 @@ def check_file(path, max_witnesses=5):
                         counters['b64_decode_accepted'] += 1
                         o = unhex(oh)
                         if must_err:
-                            bad('b64-decode-accepts-invalid', case, [u, s, o], 'invalid input (bad character, bad length or non-UTF-8 payload) was accepted')
+                            bad('b64-decode-accepts-invalid', case, [u, s, o], 'invalid input (bad character, bad length, excess padding or non-UTF-8 payload) was accepted')
                         elif o != payload:
                             bad('b64-decode', case, [u, s, o], 'Python decodes to %r' % payload)
                 elif t == 'U':
